@@ -7,10 +7,11 @@
    * together: n_emitted (parse_model …) = number of statements (every_statement_contributes).
    The guards are exactly the finding classes refuted in ParseModelExamples (two names on the left, a left-hand
    name called as a function, identical duplicates); the unclosed fence is a property of split_equations_iter
-   (the lines never become a statement) and is covered by lines_conserved below. *)
+   (the lines never become a statement): SplitChunksFacts shows that this is the only way a line is lost, and
+   no_statement_discarded below puts both halves together. *)
 From Coq Require Import String Ascii List Bool Arith ZArith Lia.
 Import ListNotations.
-Require Import Generated PyBase PyStr Lex Format Symbols SymbolsFacts Split SplitFacts Merge MergeFacts ParseEq ParseEqFacts ParseModel ParseModelFacts.
+Require Import Generated PyBase PyStr Lex Format Symbols SymbolsFacts Split SplitFacts SplitChunks SplitChunksFacts Merge MergeFacts ParseEq ParseEqFacts ParseModel ParseModelFacts.
 Open Scope string_scope.
 Open Scope nat_scope.
 
@@ -409,4 +410,33 @@ Proof.
   destruct ONE as [O1 O2].
   rewrite (merge_symbols_count by_eq out ND O2 Em), (n_emitted_concat_ones by_eq O1).
   symmetry. clear - F. induction F as [|st L sts Ls _ _ IH]; [reflexivity|]. cbn [length]. rewrite IH. reflexivity.
+Qed.
+
+(* ---------- lines -> chunks -> statements -> equations ---------- *)
+Lemma parse_model_ok_split chk cs s out : parse_model_M chk cs s = POk out -> snd (split_M s) = None.
+Proof.
+  unfold parse_model_M. destruct (split_M s) as [stmts serr]. cbn [snd].
+  destruct (parse_statements chk cs stmts [] false) as [[by_eq pb]|pe|]; [|discriminate|discriminate].
+  destruct serr; [discriminate|reflexivity].
+Qed.
+
+(* For every input string, oracle and check_syntax setting: when the model is accepted, no fenced block is left
+   open, each statement names one variable on its left that it does not also call, and no name is given an
+   equation twice, then the comment-stripped lines of the script are exactly the chunks in order (nothing lies
+   between or after them) and the built model has exactly one equation / verbatim block per non-blank chunk. *)
+Theorem no_statement_discarded chk cs s out :
+  parse_model_M chk cs s = POk out ->
+  (forall st, In st (fst (split_M s)) -> stmt_guard st) ->
+  NoDup (emit_names (concat (stmt_symbols s))) ->
+  ends_in_open_fence s = false ->
+  model_lines s = concat (model_chunks s) /\
+  fst (split_M s) = map join_nl (filter nonblank_chunk (model_chunks s)) /\
+  n_emitted out = length (filter nonblank_chunk (model_chunks s)).
+Proof.
+  intros H G ND Hc.
+  pose proof (every_statement_contributes chk cs s out H G ND) as N.
+  pose proof (parse_model_ok_split _ _ _ _ H) as Hs.
+  destruct (split_M s) as [ys oe] eqn:Es. cbn [fst snd] in *. subst oe.
+  destruct (closed_no_line_lost s ys Es Hc) as (_ & Hl & Hy).
+  split; [exact Hl|]. split; [exact Hy|]. rewrite N, Hy at 1. apply map_length.
 Qed.
